@@ -175,7 +175,7 @@ pub fn full_text<V: std::fmt::Debug, E: std::fmt::Debug + std::fmt::Display>(r: 
 }
 
 macro_rules! run_kind {
-    ($client:expr, $kind:expr, $asyncv:expr, $sc:expr, $ac:expr, $sc2:expr, $ac2:expr, $devty:ty, $variant:expr) => {{
+    ($client:expr, $kind:expr, $asyncv:expr, $sc:expr, $ac:expr, $sc2:expr, $ac2:expr, $devty:ty, $variant:expr, $calls:expr) => {{
         let client = $client;
         let rt = RefreshToken::new("r".to_string());
         let u = ResourceOwnerUsername::new("u".to_string());
@@ -185,7 +185,16 @@ macro_rules! run_kind {
         // <-> future): both must produce the same outcome down to the text of every error
         macro_rules! go {
             ($mk:expr, $rty:ty, $okf:expr) => {{
-                let r: $rty = if $asyncv { $variant.drive($mk.request_async(&$ac)) } else { $mk.request(&$sc) };
+                let r: $rty = if $asyncv {
+                    // a future does nothing until it is polled
+                    let fut = $mk.request_async(&$ac);
+                    if $calls.get() != 0 {
+                        return "eager-future".to_string();
+                    }
+                    $variant.drive(fut)
+                } else {
+                    $mk.request(&$sc)
+                };
                 let t: $rty = if $asyncv { $mk.request(&$sc2) } else { $variant.drive($mk.request_async(&$ac2)) };
                 if full_text(&r) != full_text(&t) {
                     return format!("twins-differ this={} other={}", tok_bytes(full_text(&r).as_bytes()), tok_bytes(full_text(&t).as_bytes()));
@@ -234,6 +243,7 @@ pub fn run(ws: &[&str]) -> String {
         _ => return BAD.into(),
     };
     let calls = Cell::new(0u32);
+    let noise = ws.iter().flat_map(|w| w.bytes()).fold(0xcbf29ce484222325u64, |h, b| (h ^ b as u64).wrapping_mul(0x100000001b3)) >> 23 & 1 == 0;
     let reply = || -> Result<HttpResponse, FakeError> {
         calls.set(calls.get() + 1);
         if status == 0 {
@@ -246,6 +256,24 @@ pub fn run(ws: &[&str]) -> String {
             for one in ct.split(|c| *c == b'\n') {
                 b = b.header(http::header::CONTENT_TYPE, match http::HeaderValue::from_bytes(one) { Ok(v) => v, Err(_) => std::panic::panic_any(Exhausted) });
             }
+        }
+        if noise {
+            // headers that say nothing about the outcome: the classification may not depend on them
+            b = b
+                .header(http::header::CONTENT_ENCODING, "identity")
+                .header(http::header::CONTENT_LENGTH, body.len())
+                .header(http::header::DATE, "Thu, 01 Jan 1970 00:00:00 GMT")
+                .header(http::header::CACHE_CONTROL, "no-store")
+                .header(http::header::PRAGMA, "no-cache")
+                .header(http::header::SERVER, "srv/1.0")
+                .header(http::header::VARY, "Accept-Encoding")
+                .header(http::header::SET_COOKIE, "sid=1; HttpOnly")
+                .header(http::header::WWW_AUTHENTICATE, "Basic realm=\"x\"")
+                .header(http::header::RETRY_AFTER, "120")
+                .header(http::header::CONTENT_LANGUAGE, "en")
+                .header(http::header::CONNECTION, "close")
+                .header("x-request-id", "0123456789abcdef")
+                .header("x-content-type-options", "nosniff");
         }
         Ok(b.body(body.clone()).unwrap())
     };
@@ -271,7 +299,7 @@ pub fn run(ws: &[&str]) -> String {
             .set_introspection_url(IntrospectionUrl::new("https://example.com/i".to_string()).unwrap())
             .set_device_authorization_url(DeviceAuthorizationUrl::new("https://example.com/d".to_string()).unwrap())
             .set_revocation_url(RevocationUrl::new("https://example.com/r".to_string()).unwrap());
-        run_kind!(client, kind, asyncv, sync_client, async_client, sync_client2, async_client2, XDev, variant)
+        run_kind!(client, kind, asyncv, sync_client, async_client, sync_client2, async_client2, XDev, variant, calls)
     } else {
         let client = BasicClient::new(id)
             .set_client_secret(sec)
@@ -279,7 +307,7 @@ pub fn run(ws: &[&str]) -> String {
             .set_introspection_url(IntrospectionUrl::new("https://example.com/i".to_string()).unwrap())
             .set_device_authorization_url(DeviceAuthorizationUrl::new("https://example.com/d".to_string()).unwrap())
             .set_revocation_url(RevocationUrl::new("https://example.com/r".to_string()).unwrap());
-        run_kind!(client, kind, asyncv, sync_client, async_client, sync_client2, async_client2, StandardDeviceAuthorizationResponse, variant)
+        run_kind!(client, kind, asyncv, sync_client, async_client, sync_client2, async_client2, StandardDeviceAuthorizationResponse, variant, calls)
     };
     format!("{} calls={}", out, calls.get())
 }
